@@ -59,6 +59,12 @@ def generate(seed, tier):
                         for force in (0, 1):
                             for dflt in ("~", "="):
                                 yield req(prefer, force, enc, sig, dflt, text)
+    # named defaults whose canonical ICU name sorts after / before "UTF-8", and an alias of UTF-8
+    for dflt in ("windows-1252", "ISO-8859-1", "utf8", "UTF-16LE"):
+        for prefer in (-1, 0, 5, 20):
+            for magic in ("none", "v11", "v20"):
+                for force in (0, 1):
+                    yield req(prefer, force, "utf8", 0, dflt, MAGICS[magic] + PROBES["list"])
     for text in EXTRA_TEXTS:
         for enc in ICU:
             for sig in (0, 1):
@@ -70,7 +76,7 @@ def generate(seed, tier):
     for _ in range(2000 if tier != "quick" else 300):
         prefer = r.choice([-2147483648, -2, -1, 0, 1, 2, 18, 19, 20, 21, 2147483647, r.randint(-100, 100)])
         enc = r.choice(list(ICU))
-        dflt = r.choice(["~", "=", "ISO-8859-1", "UTF-8", "UTF-16LE", "US-ASCII"])
+        dflt = r.choice(["~", "=", "ISO-8859-1", "UTF-8", "UTF-16LE", "US-ASCII", "windows-1252", "utf8"])
         yield req(prefer, r.randint(0, 1), enc, r.randint(0, 1), dflt, r.choice(texts))
 
 
